@@ -132,7 +132,7 @@ func c11Provenance(r *Run) {
 				}
 			case isReflectValueMethod(info, c, "FieldByName"), isReflectValueMethod(info, c, "MethodByName"):
 				con := calleeOf(info, c).Name() + "(" + short(w.Fset, c.Args[0]) + ")"
-				if nameFromNode(info, f, c.Args[0]) {
+				if nameFromNode(w, info, f, c.Args[0]) {
 					r.Ok("R1", f.Name(), con, w.Pos(c.Pos()), "the member name written in the template (the node's Value)")
 				} else {
 					r.Bad("R1", f.Name(), con, w.Pos(c.Pos()), "the member looked up must be the one named in the path: the identifier node's Value (for calls: the function identifier's Value)")
@@ -142,9 +142,65 @@ func c11Provenance(r *Run) {
 	}
 }
 
+
+// nameOfExprHelper: g(x ast.Expression) string returns, on every return, x.String() or the Value of
+// the identifier x is (directly or through a local all of whose definitions are such).
+func nameOfExprHelper(g *FuncInfo) bool {
+	sig := g.Obj.Type().(*types.Signature)
+	if sig.Params().Len() != 1 || sig.Results().Len() != 1 || g.Decl.Body == nil {
+		return false
+	}
+	info := g.Pkg.TypesInfo
+	prm := sig.Params().At(0)
+	var ok func(e ast.Expr, depth int) bool
+	ok = func(e ast.Expr, depth int) bool {
+		if depth > 4 {
+			return false
+		}
+		e = unparen(e)
+		if c, isCall := e.(*ast.CallExpr); isCall {
+			sel, isSel := unparen(c.Fun).(*ast.SelectorExpr)
+			return isSel && sel.Sel.Name == "String" && len(c.Args) == 0 && objOf(info, sel.X) == types.Object(prm)
+		}
+		if bx, fld := fieldOf(info, e); fld != nil && fld.Name() == "Value" {
+			if o := objOf(info, bx); o != nil {
+				for _, d := range allDefs(info, g.Decl.Body, o) {
+					if ta, isTA := unparen(d).(*ast.TypeAssertExpr); isTA && objOf(info, ta.X) == types.Object(prm) {
+						return true
+					}
+				}
+			}
+			return false
+		}
+		if o := objOf(info, e); o != nil && o != types.Object(prm) {
+			defs := allDefs(info, g.Decl.Body, o)
+			if len(defs) == 0 {
+				return false
+			}
+			for _, d := range defs {
+				if !ok(d, depth+1) {
+					return false
+				}
+			}
+			return true
+		}
+		return false
+	}
+	rets := returnsIn(g.Decl.Body)
+	if len(rets) == 0 {
+		return false
+	}
+	for _, ret := range rets {
+		if len(ret.Results) != 1 || !ok(ret.Results[0], 0) {
+			return false
+		}
+	}
+	return true
+}
+
 // nameFromNode: e is <node>.Value, <ident from node.Function>.Value, or a
 // local all of whose definitions are such (or node.Function.String()).
-func nameFromNode(info *types.Info, f *FuncInfo, e ast.Expr) bool {
+func nameFromNode(w *World, info *types.Info, f *FuncInfo, e ast.Expr) bool {
 	node := f.Obj.Type().(*types.Signature).Params().At(0)
 	var ok func(e ast.Expr, depth int) bool
 	ok = func(e ast.Expr, depth int) bool {
@@ -172,6 +228,15 @@ func nameFromNode(info *types.Info, f *FuncInfo, e ast.Expr) bool {
 			if sel, isSel := unparen(c.Fun).(*ast.SelectorExpr); isSel && sel.Sel.Name == "String" {
 				if b2, f2 := fieldOf(info, sel.X); f2 != nil && f2.Name() == "Function" && objOf(info, b2) == node {
 					return true
+				}
+			}
+			// a helper of the module applied to node.Function that returns the name of that expression:
+			// its String(), or the Value of the identifier it is
+			if len(c.Args) == 1 {
+				if b2, f2 := fieldOf(info, c.Args[0]); f2 != nil && f2.Name() == "Function" && objOf(info, b2) == node {
+					if g := w.FuncOf(calleeOf(info, c)); g != nil && nameOfExprHelper(g) {
+						return true
+					}
 				}
 			}
 			return false
